@@ -35,6 +35,18 @@ impl FungibleToken for FeeTok {
     type ContractType = Base;
 }
 
+/// an integrator's contract that uses the documented low-level helper `collect_fee` directly (no authorization of its own):
+/// the only thing between a caller and the contract's own funds is the helper's "user is this contract" refusal
+#[contract]
+pub struct Collector;
+#[contractimpl]
+impl Collector {
+    pub fn collect(e: &Env, fee_token: Address, fee: i128, max: i128, expiration_ledger: u32, user: Address, recipient: Address, eager: bool) {
+        let approval = if eager { stellar_fee_abstraction::FeeAbstractionApproval::Eager } else { stellar_fee_abstraction::FeeAbstractionApproval::Lazy };
+        stellar_fee_abstraction::collect_fee(e, &fee_token, fee, max, expiration_ledger, &user, &recipient, approval)
+    }
+}
+
 #[contract]
 pub struct Target;
 #[contractimpl]
@@ -71,12 +83,15 @@ pub enum Tamper {
 }
 #[derive(Clone, Debug, Serialize, Deserialize)]
 pub enum Step {
-    Fund { token: usize, #[serde(with = "i128s")] amt: i128 },
+    /// mint to the user — or (anybody may send a contract tokens) to the forwarder contract itself
+    Fund { token: usize, #[serde(with = "i128s")] amt: i128, #[serde(default)] to_forwarder: bool },
     PreApprove { token: usize, #[serde(with = "i128s")] amt: i128, live_for: u32 },
     Forward { token: usize, #[serde(with = "i128s")] fee: i128, #[serde(with = "i128s")] max: i128, exp_rel: i64, arg: u32, tamper: Tamper, user_signs: bool, relayer: usize, relayer_signs: bool },
     /// forward(…, user = the forwarder's own address, …): nobody can authorize for the forwarder, so this must fail without effect
     /// (otherwise the relayer could spend the fees the forwarder holds)
     ForwardSelf { token: usize, #[serde(with = "i128s")] fee: i128, #[serde(with = "i128s")] max: i128 },
+    /// collect_fee(…, user = the collecting contract itself, …) on a contract that holds `fee` of the token: must be refused
+    CollectSelf { token: usize, #[serde(with = "i128s")] fee: i128, #[serde(with = "i128s")] max: i128, eager: bool },
     Allow { token: usize, on: bool, by_manager: bool },
     /// permissioned forwarder: the manager sweeps the collected fees of a token to a recipient
     Sweep { token: usize, to: usize, by_manager: bool },
@@ -196,7 +211,7 @@ impl Check for Forwarder {
         Some(Step::Advance { n })
     }
     fn probes(&self, _prop: &str) -> std::vec::Vec<&'static str> {
-        vec!["probe.forward_expired_with_allowance_exactly_at_max", "probe.forward_with_allowance_exactly_at_max", "probe.fees_swept", "probe.forward_as_forwarder", "probe.forward_as_forwarder_while_it_holds_fees"]
+        vec!["probe.forward_expired_with_allowance_exactly_at_max", "probe.forward_with_allowance_exactly_at_max", "probe.fees_swept", "probe.forward_as_forwarder", "probe.collect_fee_from_itself_eager", "probe.collect_fee_from_itself_lazy", "probe.forward_as_forwarder_while_it_holds_fees"]
     }
     fn dup_ok(&self, _s: &Step) -> bool {
         true
@@ -212,10 +227,10 @@ impl Check for Forwarder {
         for k in 0..nsteps {
             let token = rng.below(2) as usize;
             let s = if k == 0 {
-                Step::Fund { token: 0, amt: 10_000 + rng.below(1_000_000) as i128 }
+                Step::Fund { token: 0, amt: 10_000 + rng.below(1_000_000) as i128, to_forwarder: false }
             } else {
                 match rng.below(100) {
-                    0..=7 => Step::Fund { token, amt: 1 + rng.below(100_000) as i128 },
+                    0..=7 => Step::Fund { token, amt: 1 + rng.below(100_000) as i128, to_forwarder: rng.chance(20) },
                     8..=15 => Step::PreApprove { token, amt: match rng.below(4) { 0 => 0, 1 => 50, _ => 1 + rng.below(5_000) as i128 }, live_for: rng.below(30) as u32 },
                     16..=70 => {
                         // a quarter of the forwards with a live pre-existing allowance aim the maximum at it: exactly at, one below, one above
@@ -227,6 +242,7 @@ impl Check for Forwarder {
                         Step::Forward { token, fee, max, exp_rel, arg: rng.below(1000) as u32, tamper, user_signs: !rng.chance(6), relayer: if rng.chance(90) { 1 } else { 3 }, relayer_signs: !rng.chance(5) }
                     }
                     71..=80 if cfg.permissioned => Step::Allow { token: rng.below(4) as usize, on: rng.chance(60), by_manager: !rng.chance(12) },
+                    81 if rng.chance(50) => Step::CollectSelf { token, fee: 1 + rng.below(50) as i128, max: 50 + rng.below(1000) as i128, eager: rng.chance(50) },
                     81 => Step::ForwardSelf { token, fee: 1 + rng.below(50) as i128, max: 50 + rng.below(1000) as i128 },
                     82..=83 => Step::SetTrap { on: rng.chance(50) },
                     84..=85 if cfg.permissioned => Step::Sweep { token, to: *rng.pick(&[0usize, 1, 3]), by_manager: !rng.chance(15) },
@@ -239,7 +255,7 @@ impl Check for Forwarder {
             };
             // generator-side model
             match &s {
-                Step::Fund { token, amt } => *m.bal.entry((*token, 0)).or_insert(0) += amt,
+                Step::Fund { token, amt, to_forwarder } => *m.bal.entry((*token, if *to_forwarder { 100 } else { 0 })).or_insert(0) += amt,
                 Step::PreApprove { token, amt, live_for } => {
                     let l = m.now + live_for;
                     m.approve(*token, *amt, l);
@@ -247,7 +263,7 @@ impl Check for Forwarder {
                 Step::Forward { .. } => {
                     m.forward(&cfg, &s);
                 }
-                Step::ForwardSelf { .. } => {}
+                Step::ForwardSelf { .. } | Step::CollectSelf { .. } => {}
                 Step::Allow { token, on, by_manager } => {
                     if *by_manager {
                         if *on && !m.allowed.contains(token) {
@@ -279,6 +295,7 @@ impl Check for Forwarder {
         let toks: std::vec::Vec<Address> = (0..4).map(|_| e.register(FeeTok, ())).collect();
         let tc: std::vec::Vec<FeeTokClient> = toks.iter().map(|t| FeeTokClient::new(e, t)).collect();
         let tgt = e.register(Target, ());
+        let collector = e.register(Collector, ());
         let tg = TargetClient::new(e, &tgt);
         let tgt2 = e.register(Target, ());
         let fwd = if cfg.permissioned { e.register(perm::c::FeeForwarder, (a(4), a(2), svec![e, a(1)])) } else { e.register(less::c::FeeForwarder, ()) };
@@ -286,7 +303,7 @@ impl Check for Forwarder {
         let hit = Symbol::new(e, "hit");
         for (i, s) in steps.iter().enumerate() {
             w.set_auth(&[]);
-            let before = w.storage_digest(&[&toks[0], &toks[1], &tgt, &fwd]);
+            let mut before = w.storage_digest(&[&toks[0], &toks[1], &tgt, &fwd]);
             let mut kind = "other";
             let mut outcome: Option<(bool, bool)> = None; // (got, expected)
             match s {
@@ -299,9 +316,10 @@ impl Check for Forwarder {
                     tg.set_trap(on);
                     m.trap = *on;
                 }
-                Step::Fund { token, amt } => {
-                    tc[*token].mint(&a(0), amt);
-                    *m.bal.entry((*token, 0)).or_insert(0) += amt;
+                Step::Fund { token, amt, to_forwarder } => {
+                    let dest = if *to_forwarder { fwd.clone() } else { a(0) };
+                    tc[*token].mint(&dest, amt);
+                    *m.bal.entry((*token, if *to_forwarder { 100 } else { 0 })).or_insert(0) += amt;
                 }
                 Step::PreApprove { token, amt, live_for } => {
                     let l = w.now() + live_for;
@@ -341,6 +359,19 @@ impl Check for Forwarder {
                         *m.bal.entry((*token, *to)).or_insert(0) += b;
                     }
                     outcome = Some((matches!(got, Ok(Ok(_))), exp));
+                }
+                Step::CollectSelf { token, fee, max, eager } => {
+                    kind = "collect_self";
+                    tc[*token].mint(&collector, fee);
+                    before = w.storage_digest(&[&toks[0], &toks[1], &tgt, &fwd]); // the funding itself is not part of the refused call
+                    let held = tc[*token].balance(&collector);
+                    let cl = CollectorClient::new(e, &collector);
+                    let got = cl.try_collect(&toks[*token], fee, max, &(w.now() + 10), &collector, &a(3), eager).is_ok();
+                    st.hit(if *eager { "probe.collect_fee_from_itself_eager" } else { "probe.collect_fee_from_itself_lazy" });
+                    if tc[*token].balance(&collector) != held {
+                        return Err(violation("charge.needs_user_auth_over_exact_call_and_bounds", "collect_self", i, format!("{s:?}: the collecting contract's own balance went {held} -> {}", tc[*token].balance(&collector))));
+                    }
+                    outcome = Some((got, false));
                 }
                 Step::ForwardSelf { token, fee, max } => {
                     kind = "forward_self";
@@ -407,7 +438,7 @@ impl Check for Forwarder {
                     };
                     let check = match (kind, got) {
                         (_, true) if role_reason => "roles.manager_or_executor_only",
-                        ("forward" | "forward_self", true) => "charge.needs_user_auth_over_exact_call_and_bounds",
+                        ("forward" | "forward_self" | "collect_self", true) => "charge.needs_user_auth_over_exact_call_and_bounds",
                         (_, true) => "refine.must_fail",
                         (_, false) => "live.must_succeed",
                     };
